@@ -383,7 +383,11 @@ fn builtin_byte(args: Vec<Rc<Object>>) -> Result<Rc<Object>, String> {
             [b] => Ok(Rc::new(Object::Byte(*b))),
             _ => Ok(Rc::new(Object::Null)),
         },
-        Object::Char(c) => Ok(Rc::new(Object::Byte(*c as u8))),
+        // a character above U+00FF is no byte, like an integer above 255
+        Object::Char(c) => match u8::try_from(*c as u32) {
+            Ok(b) => Ok(Rc::new(Object::Byte(b))),
+            Err(_) => Ok(Rc::new(Object::Null)),
+        },
         Object::Bool(b) => {
             if *b {
                 Ok(Rc::new(Object::Byte(1)))
